@@ -557,7 +557,7 @@ class Graph:
     """State graph exported by MC_Queue (S / E lines)."""
 
     def __init__(self) -> None:
-        self.states: dict[str, dict] = {}
+        self.states: dict[str, str] = {}                   # key -> state as the JSON text TLC printed (parsed lazily)
         self.out: dict[str, list[tuple[str, str]]] = {}    # key -> [(label json, key')]
         self.root: str | None = None
         self.nedges = 0
@@ -577,7 +577,7 @@ class Graph:
                 _, key, js = s.split(" ", 2)
                 if g.root is None:
                     g.root = key
-                g.states[key] = json.loads(js)
+                g.states[key] = js
             elif s.startswith("E "):
                 _, k1, k2, js = s.split(" ", 3)
                 if (k1, k2, js) in seen:
@@ -979,25 +979,16 @@ def _w_init(base: str, env: dict | None = None) -> None:
     os.environ.update(env or {})
     install_hooks()
     _W["db"] = os.path.join(base, f"q{os.getpid()}.db")
-    _W["graphs"] = {}
-
-
-def _w_graph(gfile: str) -> Graph:
-    g = _W["graphs"].get(gfile)
-    if g is None:
-        with open(gfile) as fh:
-            g = Graph.parse(fh.read())
-        _W["graphs"] = {gfile: g}
-    return g
 
 
 def w_replay_walks(args) -> dict:
-    gfile, clients, walks = args
-    g = _w_graph(gfile)
-    res = {"walks": 0, "steps": 0, "edges": [], "bad": []}
-    for w in walks:                       # w = [k0, (label json, key'), (label json, key'), ...]
-        labels = [json.loads(js) for js, _ in w[1:]]
-        exp = [predicted_obs(g.states[k2]) for _, k2 in w[1:]]
+    """walks: [[(label json, predicted state json), ...], ...] -> per walk the number of steps that
+    conformed, and the failures."""
+    clients, walks = args
+    res = {"walks": 0, "steps": 0, "ok_steps": [], "bad": []}
+    for w in walks:
+        labels = [json.loads(js) for js, _ in w]
+        exp = [predicted_obs(json.loads(st)) for _, st in w]
         r = run_labels(_W["db"], clients, labels, exp)
         if r["mismatch"] or r["diverged"]:
             r2 = run_labels(_W["db"], clients, labels, exp)      # must be reproducible to count
@@ -1007,13 +998,9 @@ def w_replay_walks(args) -> dict:
         res["steps"] += len(r["events"])
         if r["mismatch"] or r["diverged"]:
             res["bad"].append({"labels": labels, "mismatch": r["mismatch"], "diverged": r["diverged"]})
-            n = (r["mismatch"]["step"] - 1) if r["mismatch"] else len(r["events"])
+            res["ok_steps"].append((r["mismatch"]["step"] - 1) if r["mismatch"] else len(r["events"]))
         else:
-            n = len(labels)
-        k = w[0]
-        for js, k2 in w[1:1 + n]:
-            res["edges"].append((k, js, k2))
-            k = k2
+            res["ok_steps"].append(len(labels))
     return res
 
 
@@ -1117,7 +1104,7 @@ def plan(tier: str) -> dict:
             ("g2c1m-crash", 2, 1, dict(replays=1, crashes=1, notfound=1, delayed=True), None),
             ("g3c1m-replay", 3, 1, dict(replays=1, crashes=0, notfound=0), None),
             ("g2c2m", 2, 2, dict(replays=0, crashes=0, notfound=0, delayed=True), None),
-            ("g2c2m-replay", 2, 2, dict(replays=1, crashes=0, notfound=0), None),
+            ("g2c1m-c2r2", 2, 1, dict(replays=2, crashes=2, notfound=1, delayed=True), None),
         ]
     if os.environ.get("VERIF_C08_BINDING_ONLY"):     # development aid (mutation runs): skip pure model checking
         mc, live = [], []
@@ -1302,14 +1289,16 @@ def run(pid: str, tier: str, seed: int) -> int:
                     if ch is None:
                         exhausted = True
                         break
-                    payload = [[w[0][0]] + [(js, k2) for _, js, k2 in w] for w in ch]
-                    pending.append(the_pool.apply_async(w_replay_walks, ((gi["gfile"], clients, payload),)))
+                    payload = [[(js, g.states[k2]) for _, js, k2 in w] for w in ch]
+                    pending.append((ch, the_pool.apply_async(w_replay_walks, ((clients, payload),))))
                 if not pending:
                     break
-                res = pending.pop(0).get(timeout=900)
+                ch, fut = pending.pop(0)
+                res = fut.get(timeout=900)
                 nw += res["walks"]
                 ns += res["steps"]
-                covered.update(map(tuple, res["edges"]))
+                for w, n_ok in zip(ch, res["ok_steps"]):
+                    covered.update(w[:n_ok])
                 bad += res["bad"]
                 if _time.time() >= deadline:
                     exhausted = True
